@@ -81,24 +81,20 @@ def connectLoop (start : Bool) : BiTree σ → Nat → List (Grow σ) → BiTree
 def biOut (c : BiTree σ) (i i' : Nat) (res : List (Nat × Bool × δ)) : IterOut δ (BiTree σ) :=
   ⟨c, i', (freshIds i (i' - i)).map Ev.alloc, res⟩
 
-def connectIterate (c : BiTree σ) (i : Nat) (d : BDraw σ δ) : IterOut δ (BiTree σ) :=
-  let startSide := c.turn
-  let c0 : BiTree σ := { c with turn := !c.turn }
-  let c1 := match d.newGoal with
-    | some s => c0.push false s none i
-    | none => c0
-  let i1 := match d.newGoal with
-    | some _ => i + 1
-    | none => i
+/-- goal sampling at the top of the loop body: a state handed out by `pis_.nextGoal…` becomes a root of the goal tree -/
+def goalStep (c : BiTree σ) (i : Nat) : Option σ → BiTree σ × Nat
+  | some s => (c.push false s none i, i + 1)
+  | none => (c, i)
+
+/-- the rest of the loop body: `i` is the fresh id at the start of the body, `(c1, i1)` the state after the goal sampling,
+`startSide` the value `tgi.start` got from `startTree_` -/
+def growStep (startSide : Bool) (i : Nat) (c1 : BiTree σ) (i1 : Nat) (d : BDraw σ δ) : IterOut δ (BiTree σ) :=
   match d.first with
   | .trapped => biOut c1 i i1 []
   | .added near st _ =>
     if near < (c1.side startSide).size then
       let addedIdx := (c1.side startSide).size
-      let c2 := c1.push startSide st (some near) i1
-      let o := connectLoop (!startSide) c2 (i1 + 1) d.connect
-      let c3 := o.1
-      let i3 := o.2.1
+      let o := connectLoop (!startSide) (c1.push startSide st (some near) i1) (i1 + 1) d.connect
       -- the first growTree(otherTree) TRAPPED: tgi.start is restored, tgi.xmotion is still the motion just added
       let tgiStart := if o.2.2.1.isNone then startSide else !startSide
       let xIdx := o.2.2.1.getD addedIdx
@@ -106,14 +102,20 @@ def connectIterate (c : BiTree σ) (i : Nat) (d : BDraw σ δ) : IterOut δ (BiT
         let sM := if startSide then addedIdx else xIdx
         let gM := if startSide then xIdx else addedIdx
         -- go one step back to avoid a duplicate state: on the start side if that motion has a parent
-        let sg : Nat × Nat := match (c3.ts[sM]?).bind (·.parent) with
+        let sg : Nat × Nat := match (o.1.ts[sM]?).bind (·.parent) with
           | some p => (p, gM)
-          | none => (sM, ((c3.tg[gM]?).bind (·.parent)).getD gM)
-        let c4 : BiTree σ := { c3 with conn := some sg }
-        if c4.connValid then biOut c4 i i3 [(c4.ts.size, true, d.dist)] else biOut c3 i i3 []
-      else if tgiStart && decide (xIdx < c3.ts.size) then biOut c3 i i3 [(xIdx, false, d.dist)]
-      else biOut c3 i i3 []
+          | none => (sM, ((o.1.tg[gM]?).bind (·.parent)).getD gM)
+        if ({ o.1 with conn := some sg } : BiTree σ).connValid then
+          biOut ({ o.1 with conn := some sg } : BiTree σ) i o.2.1 [(o.1.ts.size, true, d.dist)]
+        else biOut o.1 i o.2.1 []
+      else if tgiStart && decide (xIdx < o.1.ts.size) then biOut o.1 i o.2.1 [(xIdx, false, d.dist)]
+      else biOut o.1 i o.2.1 []
     else biOut c1 i i1 []
+
+def connectIterate (c : BiTree σ) (i : Nat) (d : BDraw σ δ) : IterOut δ (BiTree σ) :=
+  -- `tgi.start = startTree_; startTree_ = !startTree_;`
+  let p := goalStep ({ c with turn := !c.turn } : BiTree σ) i d.newGoal
+  growStep c.turn i p.1 p.2 d
 
 /-- start-tree walk to the connection's start motion, then the goal-tree chain from its goal motion up to the goal root -/
 def BiTree.joined (c : BiTree σ) : List σ :=
